@@ -28,11 +28,23 @@ type Case struct {
 	NBins int       `json:"nbins,omitempty"`
 	B     int       `json:"b,omitempty"`
 	M     float64   `json:"m,omitempty"`
-	Xs    []float64 `json:"xs"`
+	Xs    []ev.F    `json:"xs"`
 	Qs    []float64 `json:"qs"`
 }
 
-const edgeSlack = 1e-9 // in bin widths
+// edgeSlack is the "rounding distance" of an edge in bin widths for a value x at bin
+// coordinate t: a few roundings of t itself, plus (linear) the cancellation a computation of
+// the form x*delta - min*delta would suffer, plus (log) the rounding of the logarithm.
+func (c *Case) edgeSlack(x, t float64) float64 {
+	if math.IsInf(t, 0) {
+		return 0
+	}
+	if c.Kind == "linear" {
+		w := (c.Max - c.Min) / float64(c.NBins)
+		return 8 * ref.Eps * (math.Abs(t) + 1 + (math.Abs(x)+math.Abs(c.Min)+math.Abs(c.Max))/w)
+	}
+	return 8 * ref.Eps * (math.Abs(t) + 1 + c.M)
+}
 
 // idealIndex returns the real-valued bin coordinate of x in 400-bit arithmetic.
 func (c *Case) idealIndex(x float64) *big.Float {
@@ -114,16 +126,19 @@ var checkHist = ev.Register("histogram", func(c *Case) ev.Outcome {
 	bins := make([]uint, nb)
 	classes := map[string]bool{}
 	justBelow := false
-	for step, x := range c.Xs {
+	for step, xf := range c.Xs {
+		x := float64(xf)
 		if c.Kind == "log" && !(x > 0) {
 			return ev.Fail("harness error: log histogram takes positive values only")
 		}
-		t := c.idealIndex(x)
-		tf := ref.F64(t)
-		if math.Abs(tf) > 1e15 {
-			return ev.Fail("harness error: value beyond 1e15 bin widths")
+		var tf float64
+		if math.IsInf(x, 0) {
+			tf = x // infinitely far above (below) the range
+		} else {
+			tf = ref.F64(c.idealIndex(x))
 		}
 		fl := math.Floor(tf)
+		edgeSlack := c.edgeSlack(x, tf)
 		// acceptable bin coordinates (-1 = under, nb = over)
 		accept := map[int]bool{}
 		clamp := func(i float64) int {
@@ -333,10 +348,21 @@ func drawCase(t *rapid.T) *Case {
 			tt = float64(nb) + rapid.Float64Range(0, 50).Draw(t, "above")
 		case 6:
 			tt = float64(rapid.IntRange(0, nb).Draw(t, "nearEdge"))
+			if rapid.Bool().Draw(t, "offEdge") {
+				// a little off an edge, but far beyond its rounding distance
+				tt += gen.Sign(t, "offSign") * gen.LogUniform(t, 1e-13, 1e-3, "offEdgeBy")
+			}
 		default:
 			tt = float64(rapid.IntRange(0, maxInt(0, nb-1)).Draw(t, "bin")) + 0.5
 		}
 		x := edge(tt)
+		if rapid.IntRange(0, 15).Draw(t, "far") == 0 {
+			// far outside the range: beyond 2^31, 2^63 bin widths and the float range
+			x = rapid.SampledFrom([]float64{1e19, 3e9, 1e100, 1e300, math.MaxFloat64, math.Inf(1), -3e9, -1e19, -1e300, -math.MaxFloat64, math.Inf(-1)}).Draw(t, "farValue")
+			if c.Kind == "linear" && !math.IsInf(x, 0) && math.Abs(x) < 1e100 {
+				x = c.Min + x*(c.Max-c.Min)/float64(nb)
+			}
+		}
 		if c.Kind == "log" && !(x > 0) {
 			x = 1e-300
 		}
@@ -347,7 +373,7 @@ func drawCase(t *rapid.T) *Case {
 				x = math.Nextafter(x, math.Inf(-1))
 			}
 		}
-		c.Xs = append(c.Xs, x)
+		c.Xs = append(c.Xs, ev.F(x))
 	}
 	nq := rapid.IntRange(1, 8).Draw(t, "nq")
 	for i := 0; i < nq; i++ {
